@@ -47,7 +47,7 @@ INVALID_OPS = [
     "bad_density_threshold", "bad_zero_charge_on_point", "bad_orders_negative", "bad_transform_shape", "bad_atom", "bad_file",
     "bad_moment_orders", "bad_sph_labels",
 ]
-UPDATE_OPS = ["upd_coeffs", "upd_exps", "upd_coord", "upd_exps_inplace", "upd_coeffs_inplace", "upd_coord_inplace", "upd_bad_coeffs", "upd_bad_exps"]
+UPDATE_OPS = ["upd_coeffs", "upd_exps", "upd_coord", "upd_exps_inplace", "upd_coeffs_inplace", "upd_coord_inplace", "upd_bad_coeffs", "upd_bad_exps", "upd_scramble_returned"]
 
 
 def gen_cases(tier, seed):
@@ -347,6 +347,49 @@ def run_history(case, pool, mode, viols, pass_name):
         mi.freeze(pool)
     for k, o in enumerate(case["ops"]):
         name = o["op"]
+        if name == "upd_scramble_returned":
+            # arrays handed OUT by the library belong to the caller: overwriting them must not change later results
+            from gbasis.evals.eval import evaluate_basis as _eb
+            from gbasis.integrals.kinetic_energy import kinetic_energy_integral as _kin2
+            from gbasis.spherical import generate_transformation as _gt
+
+            def probes():
+                b_ = list(pool["basis"])
+                out_ = [cm.call(overlap_integral, b_), cm.call(_kin2, b_), cm.call(_eb, b_, np.array(pool["pts"]))]
+                for sh_ in b_:
+                    out_.append(np.array(sh_.angmom_components_cart))
+                    out_.append(np.array(sh_.norm_prim_cart))
+                    out_.append(cm.call(_gt, int(sh_.angmom), np.array(sh_.angmom_components_cart), tuple(sh_.angmom_components_sph), "left"))
+                return out_
+
+            before = probes()
+            rs_ = bases.rng_for("C19scramble", k, *o["r"])
+            handed = [overlap_integral(list(pool["basis"]))]
+            for sh_ in pool["basis"]:
+                handed += [sh_.angmom_components_cart, sh_.norm_prim_cart, _gt(int(sh_.angmom), sh_.angmom_components_cart, tuple(sh_.angmom_components_sph), "left")]
+            nscr = 0
+            for arr in handed:
+                if isinstance(arr, np.ndarray) and arr.flags.writeable and arr.size:
+                    try:
+                        rs_.shuffle(arr)  # in place, first axis
+                        arr *= 3
+                        nscr += 1
+                    except Exception:  # noqa: BLE001
+                        pass
+            after = probes()
+            evals += 1
+            for q_, (x_, y_) in enumerate(zip(before, after)):
+                if isinstance(x_, cm.Raised) or isinstance(y_, cm.Raised):
+                    okq = type(x_) is type(y_)
+                    why = "one of the probes raised"
+                else:
+                    okq, why = same_value(x_, y_)
+                if not okq:
+                    viols.append(cm.viol("[%s] after the caller overwrote arrays that earlier calls had returned, probe %d gives a different result: %s" % (pass_name, q_, why),
+                                         "returned_array_shared", op=name))
+                    break
+            rec.append((o, None, None, None))
+            continue
         if name in ("upd_bad_coeffs", "upd_bad_exps"):
             outcome, unchanged, s = apply_update(name, pool, o, frozen)
             evals += 1
